@@ -166,20 +166,32 @@ func streamCase(rt *rapid.T, rec *vt.Rec) {
 	n := rapid.IntRange(1, 40).Draw(rt, "nMsgs")
 	var msgs []*jsonrpc2.Message
 	w := &bufRWC{}
-	wc := jsonrpc2.IOCodec(w)
+	var wc jsonrpc2.Codec = jsonrpc2.IOCodec(w)
+	if rapid.IntRange(0, 3).Draw(rt, "debugWriter") == 0 {
+		wc = jsonrpc2.DebugCodec("verif-w", wc)
+	}
 	var bounds []int
 	for i := 0; i < n; i++ {
 		m := genMessage(rt, true)
 		msgs = append(msgs, m)
+		want := canonMsg(m)
 		if err := wc.WriteMessage(m); err != nil {
 			rt.Fatalf("WriteMessage: %v", err)
+		}
+		if canonMsg(m) != want {
+			rt.Fatalf("WriteMessage modified the caller's message:\n before %.200s\n after  %.200s", want, canonMsg(m))
 		}
 		bounds = append(bounds, w.Len())
 	}
 	stream := append([]byte(nil), w.Bytes()...)
 	cuts := genCuts(rt)
 	cr := &chunkReader{data: append([]byte(nil), stream...), pattern: cuts}
-	rc := jsonrpc2.IOCodec(cr)
+	var rc jsonrpc2.Codec = jsonrpc2.IOCodec(cr)
+	debug := rapid.IntRange(0, 3).Draw(rt, "debugCodec") == 0
+	if debug {
+		// the logging wrapper the pool uses with its debug option must be transparent
+		rc = jsonrpc2.DebugCodec("verif", rc)
+	}
 	for i, want := range msgs {
 		got, err := rc.ReadMessage()
 		if err != nil {
